@@ -222,9 +222,11 @@ impl Metainfo {
     pub fn find_piece_length(dict: &HashMap<Vec<u8>, BValue>) -> Result<u64, Error> {
         match dict.get(&b"info".to_vec()) {
             Some(BValue::Dict(info)) => match info.get(&b"piece length".to_vec()) {
-                Some(BValue::Int(length)) => {
-                    u64::try_from(*length).or(Err(Error::MetaInvalidU64("piece length")))
-                }
+                // Zero is not valid piece length (every piece position is divided by it)
+                Some(BValue::Int(length)) => match u64::try_from(*length) {
+                    Ok(length) if length > 0 => Ok(length),
+                    _ => Err(Error::MetaInvalidU64("piece length")),
+                },
                 _ => Err(Error::MetaIncorrectOrMissing("piece length")),
             },
             _ => Err(Error::MetaIncorrectOrMissing("info".into())),
